@@ -76,6 +76,10 @@ func c03Full(archs []wsp.Arch) func(AState) []AOp {
 						continue
 					}
 					ops = append(ops, AOp{Kind: "WB", Arch: tg, Ages: sq, Vals: Vals[:n]})
+					if tg == -1 && n <= 2 {
+						// the same batch through the clock-reading wrapper UpdateMany (batches of one point included)
+						ops = append(ops, AOp{Kind: "WBG", Arch: -1, Ages: sq, Vals: Vals[:n]})
+					}
 				}
 			}
 			// structured mixtures: dense archive-0 batch plus one too-old point, in several orders
